@@ -885,7 +885,8 @@ class Overlay(Widget, WidgetContainerMixin, WidgetContainerListContentsMixin, ty
         if top < 0 or bottom < 0:
             top_c.pad_trim_top_bottom(min(0, top), min(0, bottom))
 
-        return CanvasOverlay(top_c, bottom_c, left, top)
+        # a top widget trimmed on the left / top starts at the edge of the bottom canvas
+        return CanvasOverlay(top_c, bottom_c, max(0, left), max(0, top))
 
     def mouse_event(
         self,
